@@ -56,6 +56,10 @@ def lattice_cases(thorough):
         gen = E1.product(space) if thorough else E1.deviations(space, 2)
         for setting in gen:
             yield {"kind": "lattice", "fn": fn, "setting": setting}
+    # two layers in one call: an option of one layer must not leak into the other
+    for fn in ("map", "histogram2d"):
+        for bits in itertools.product([False, True], repeat=6):
+            yield {"kind": "two_layers", "fn": fn, "setting": dict(zip(["norm_call", "norm_l0", "norm_l1", "vmin_call", "vmin_l0", "vmin_l1"], bits))}
     for bins in ("neither", "layer", "call", "both"):
         for weights in ("neither", "layer", "call", "both"):
             for extra in ("neither", "layer", "call", "both"):
@@ -157,6 +161,59 @@ def run_lattice(acc, idx, c):
     return "ok" if not problems else "violation"
 
 
+def run_two_layers(acc, idx, c):
+    import osyris
+    from matplotlib.colors import LogNorm, Normalize, SymLogNorm
+
+    Layer = osyris.core.layer.Layer
+    st, fn = c["setting"], c["fn"]
+    NORM = {"call": "linear", "l0": "log", "l1": "symlog"}
+    VMIN = {"call": 0.5, "l0": 1.5, "l1": 2.5}
+    CLS = {"linear": Normalize, "log": LogNorm, "symlog": SymLogNorm, None: Normalize}
+    lkw = [{}, {}]
+    ckw = {}
+    if st["norm_call"]:
+        ckw["norm"] = NORM["call"]
+    if st["vmin_call"]:
+        ckw["vmin"] = VMIN["call"]
+    for k in (0, 1):
+        if st[f"norm_l{k}"]:
+            lkw[k]["norm"] = NORM[f"l{k}"]
+        if st[f"vmin_l{k}"]:
+            lkw[k]["vmin"] = VMIN[f"l{k}"]
+    try:
+        with quiet(), warnings.catch_warnings(), np.errstate(all="ignore"):
+            warnings.simplefilter("ignore")
+            if fn == "map":
+                mesh = make_mesh()
+                p = osyris.map(mesh.layer("density", **lkw[0]), mesh.layer("mass", **lkw[1]), direction="z", dx=1.0 * osyris.units("cm"),
+                               origin=osyris.Vector(0.5, 0.5, 0.5, unit="cm"), resolution=2, plot=False, **ckw)
+            else:
+                x = osyris.Array(np.array([0.5, 1.5, 1.6, 2.5, 3.5, 3.6]), unit="cm", name="x")
+                y = osyris.Array(np.array([1.0, 1.0, 1.2, 3.0, 3.0, 3.1]), unit="g", name="y")
+                v = osyris.Array(np.array([1.0, 2.0, 4.0, 8.0, 16.0, 32.0]), unit="K", name="v")
+                w = osyris.Array(np.array([3.0, 2.0, 1.0, 8.0, 6.0, 2.0]), unit="s", name="w")
+                p = osyris.histogram2d(x, y, Layer(v, **lkw[0]), Layer(w, **lkw[1]), resolution=2, xmin=0.0, xmax=4.0, ymin=0.0, ymax=4.0, plot=False, **ckw)
+    except Exception as e:
+        acc.violation(f"C19:{fn}-two-layers-raised:{type(e).__name__}", idx, c, {"error": repr(e)[:200]})
+        return "raises"
+    out = "ok"
+    for k in (0, 1):
+        want_norm = NORM[f"l{k}"] if st[f"norm_l{k}"] else (NORM["call"] if st["norm_call"] else None)
+        want_vmin = VMIN[f"l{k}"] if st[f"vmin_l{k}"] else (VMIN["call"] if st["vmin_call"] else None)
+        norm = p.layers[k]["params"].get("norm")
+        if type(norm) is not CLS[want_norm]:
+            acc.violation(f"C19:{fn}:two-layers:norm-of-layer-{k}-not-honoured", idx, c, {"got": type(norm).__name__, "expected": CLS[want_norm].__name__})
+            out = "violation"
+        elif getattr(norm, "vmin", "missing") != want_vmin:
+            acc.violation(f"C19:{fn}:two-layers:vmin-of-layer-{k}-not-honoured", idx, c, {"got": getattr(norm, "vmin", "missing"), "expected": want_vmin})
+            out = "violation"
+    if p.layers[0]["params"].get("norm") is p.layers[1]["params"].get("norm"):
+        acc.violation(f"C19:{fn}:two-layers:layers-share-one-norm-object", idx, c, {})
+        out = "violation"
+    return out
+
+
 def run_hist1d(acc, idx, c):
     import matplotlib.pyplot as plt
     import osyris
@@ -210,8 +267,8 @@ def lattice_work(payload):
     acc = Acc()
     thorough = payload["tier"] == "thorough"
     for idx, c in my_share(lattice_cases(thorough), payload):
-        out = run_lattice(acc, idx, c) if c["kind"] == "lattice" else run_hist1d(acc, idx, c)
-        nset = sum(1 for v in c["setting"].values() if v != "neither")
+        out = {"lattice": run_lattice, "two_layers": run_two_layers, "hist1d": run_hist1d}[c["kind"]](acc, idx, c)
+        nset = sum(1 for v in c["setting"].values() if v not in ("neither", False))
         acc.case(nontrivial=nset > 0, outcome=out)
         if idx % 401 == 0:
             acc.sample(c)
@@ -220,7 +277,8 @@ def lattice_work(payload):
 
 # ------------------------------------------------------------------ histories of calls sharing arguments
 
-CALLS = ["map_thin_resdict", "map_thick_two_layers", "map_rendered", "hist2d_limits", "hist2d_rendered", "hist1d", "scatter", "plot"]
+CALLS = ["map_thin_resdict", "map_thick_two_layers", "map_rendered", "hist2d_limits", "hist2d_rendered", "hist1d", "scatter", "plot",
+         "map_thick_default_resolution", "map_thick_partial_dict", "map_thin_other_unit"]
 
 
 class Shared:
@@ -236,6 +294,8 @@ class Shared:
         self.L3 = Layer(self.mesh["mass"], operation="mean", norm="log")
         self.res1 = {"x": 4}
         self.res2 = {"x": 3, "y": 3}
+        self.res3 = {"x": 8, "y": 8}
+        self.dx_m = 0.01 * osyris.units("m")
         self.origin = osyris.Vector(0.5, 0.5, 0.5, unit="cm")
         self.dx = 1.0 * osyris.units("cm")
         self.dz = 0.5 * osyris.units("cm")
@@ -266,7 +326,7 @@ class Shared:
         return {
             "mesh": {k: sa(v) for k, v in self.mesh.items()}, "mesh_keys": list(self.mesh.keys()),
             "L1": sl(self.L1), "L2": sl(self.L2), "L3": sl(self.L3), "L4": sl(self.L4),
-            "res1": sorted(self.res1.items()), "res2": sorted(self.res2.items()), "origin": sa(self.origin),
+            "res1": sorted(self.res1.items()), "res2": sorted(self.res2.items()), "res3": sorted(self.res3.items()), "dx_m": repr(self.dx_m), "origin": sa(self.origin),
             "dx": repr(self.dx), "dz": repr(self.dz), "x": sa(self.x), "y": sa(self.y), "w": sa(self.w), "xmin": repr(self.xmin),
             "size": sa(self.size), "extra": sorted(self.extra.items()),
         }
@@ -301,6 +361,16 @@ def do_call(name, S):
             if name == "map_rendered":
                 p = osyris.map(S.L1, direction="z", dx=S.dx, origin=S.origin, resolution=8, norm="log", plot=True)
                 return [np.asarray(p.x).tolist(), lay_data(p)]
+            if name == "map_thick_default_resolution":
+                p = osyris.map(S.L1, direction="z", dx=S.dx, dz=S.dz, origin=S.origin, plot=False)
+                d = lay_data(p)[0]
+                return [np.asarray(p.x).tolist()[:4], [row[::37] for row in d[::37]]]
+            if name == "map_thick_partial_dict":
+                p = osyris.map(S.L1, direction="y", dx=S.dx, dz=S.dz * 0.25, origin=S.origin, resolution=S.res3, plot=False)
+                return [np.asarray(p.x).tolist(), lay_data(p)]
+            if name == "map_thin_other_unit":
+                p = osyris.map(S.L1, direction="z", dx=S.dx_m, origin=S.origin, resolution=4, plot=False)
+                return [np.asarray(p.x).tolist(), np.asarray(p.y).tolist(), lay_data(p)]
             if name == "hist2d_limits":
                 p = osyris.histogram2d(S.x, S.y, S.L3, resolution=4, xmin=S.xmin, plot=False, **S.extra)
                 return [np.asarray(p.x).tolist(), lay_data(p)]
@@ -321,11 +391,15 @@ def do_call(name, S):
     raise KeyError(name)
 
 
-class Spec:
-    _fresh = {}
+def fresh_call(payload):
+    """Worker (a process that has done nothing else): the data a call returns on fresh objects."""
+    return history.digest(do_call(payload["call"], Shared()))
 
+
+class Spec:
     def __init__(self, params):
         self.ops = list(params["calls"])
+        self.fresh_digest = params["fresh"]
 
     def fresh(self):
         return Shared(), {}
@@ -334,9 +408,9 @@ class Spec:
         return impl.snapshot()
 
     def fresh_result(self, name):
-        if name not in Spec._fresh:
-            Spec._fresh[name] = do_call(name, Shared())
-        return Spec._fresh[name]
+        # computed once per call kind in a process of its own (see run): a reference computed in this process
+        # could itself be affected by, or affect, state the library keeps between calls
+        return self.fresh_digest[name]
 
     def step(self, S, model, op):
         problems = []
@@ -351,7 +425,7 @@ class Spec:
             changed = [k for k in before if before[k] != after[k]]
             for k in changed:
                 problems.append((f"C19:input-modified:{op}:{k}", {"before": repr(before[k])[:200], "after": repr(after[k])[:200]}))
-        if got != want and repr(got) != repr(want):
+        if history.digest(got) != want:
             problems.append((f"C19:result-depends-on-earlier-calls:{op}", {}))
         return [history.digest(got)], problems
 
@@ -362,7 +436,8 @@ def make_spec(name, params):
 
 def run(ctx):
     a1 = Acc.merged(ctx.pool.shards(MOD, "lattice_work", ctx.base()))
-    cov2, a2 = history.explore(ctx.pool, MOD, "calls", {"calls": CALLS}, 2, 3 if ctx.thorough else 2)
+    fresh = dict(zip(CALLS, ctx.pool.map_fresh(MOD, "fresh_call", [ctx.base(call=c) for c in CALLS])))
+    cov2, a2 = history.explore(ctx.pool, MOD, "calls", {"calls": CALLS, "fresh": fresh}, 2, 3 if ctx.thorough else 2)
     acc = Acc.merged([a1, a2])
     cov = {
         "states": cov2["states"],
@@ -387,8 +462,8 @@ def run(ctx):
 
 
 def replay_sigs(case):
-    if case.get("kind") in ("lattice", "hist1d"):
+    if case.get("kind") in ("lattice", "hist1d", "two_layers"):
         acc = Acc()
-        (run_lattice if case["kind"] == "lattice" else run_hist1d)(acc, 0, case)
+        {"lattice": run_lattice, "two_layers": run_two_layers, "hist1d": run_hist1d}[case["kind"]](acc, 0, case)
         return list(acc.violations.keys())
     return [s for s, _ in history.replay_case(case)]
